@@ -87,6 +87,20 @@ ScopeOf(j) == [unl |-> j.unl, set |-> {<<t[1], t[2], t[3]>> : t \in ToSet(j.trip
 ConsOf(cs) == [i \in 1..Len(cs) |-> <<cs[i].n, cs[i].k>>]
 NamesOnly(s) == [i \in 1..Len(s) |-> s[i][1]]
 
+\* A returned listing sequence is consumed several times by the harness: e.again holds what
+\* the second, third, ... consumption delivered.  Each must deliver what the first did; the
+\* backend may be asked again each time (a lazy wrapper) but only ever the same question
+\* under the same scope.
+LazyOps == {"ListRepos", "ListTags", "Referrers"}
+Iters(e) == 1 + Len(e.again)
+AgainOK(e) == \A i \in 1..Len(e.again) : e.again[i].ok = e.ok /\ (e.ok => e.again[i].items = e.items)
+BackendCallsOK(e, want) ==
+  IF e.op \in LazyOps /\ want # <<>>
+    THEN Len(e.backend) \in 1..Iters(e) /\ \A i \in 1..Len(e.backend) : e.backend[i] = want[1]
+    ELSE e.backend = want
+RECURSIVE Rep(_, _)
+Rep(s, k) == IF k = 0 THEN <<>> ELSE s \o Rep(s, k - 1)
+
 \* where in the view's name space the start string of a listing lies, from its bytes
 StartPosOK(e) ==
   e.startpos = IF e.start = "" THEN 0
@@ -107,6 +121,8 @@ ResetStep(e) ==
   /\ res' = NoRes
   /\ wres' = NoRes /\ wpe' = None /\ cons' = <<>> /\ bcalls' = <<>> /\ bscopes' = <<>>
   /\ kind' = e.kind
+  \* a stack of Sub views is the one view under the composed prefix
+  /\ e.kind = "sub" => ChainPrefix(e.chain) = Prefix
   /\ allow' = ToSet(e.allow)
   /\ pol' = IF e.kind = "select" THEN SelPol(ToSet(e.allow), Repos) ELSE e.pol
 
@@ -121,10 +137,17 @@ CheckedStep(e) ==
   /\ CheckedApply(e, pol, sc)
   /\ Match(wres', e)
   \* the policy was consulted exactly as predicted (Select's allow function sees the names only)
-  /\ IF kind = "checker" THEN e.cons = ConsOf(cons') ELSE NamesOnly(e.cons) = NamesOnly(ConsOf(cons'))
+  \* (a listing consumed k times checks its items k times)
+  /\ LET want == ConsOf(cons')
+         st == Len(StaticCons(e)) IN
+     \E k \in 1..Iters(e) :
+        LET w == IF Len(want) > st THEN SubSeq(want, 1, st) \o Rep(SubSeq(want, st + 1, Len(want)), k) ELSE want IN
+        IF kind = "checker" THEN e.cons = w ELSE NamesOnly(e.cons) = NamesOnly(w)
+  /\ AgainOK(e)
   \* the backend received exactly the predicted calls, each under the caller's own scope
-  /\ e.backend = bcalls'
-  /\ [i \in 1..Len(e.bscopes) |-> ScopeOf(e.bscopes[i])] = bscopes'
+  /\ BackendCallsOK(e, bcalls')
+  /\ Len(e.bscopes) = NIface(e.backend)
+  /\ \A i \in 1..Len(e.bscopes) : ScopeOf(e.bscopes[i]) = sc
   \* the error is the policy's own (its identity, not just its code); no policy error otherwise
   /\ kind = "checker" => ToSet(e.pes) = (IF wpe' = None THEN {} ELSE {wpe'})
   /\ C12Step(e, pol)
@@ -135,7 +158,7 @@ CheckedStep(e) ==
 InvalidCallOK(e) ==
   \* a caller string that is not a repository name: at most the one call, of the same method,
   \* and every name it carries is under the prefix or not a repository name at all
-  /\ Len(e.backend) <= 1
+  /\ Len(e.backend) <= (IF e.op \in LazyOps THEN Iters(e) ELSE 1)
   /\ \A i \in 1..Len(e.backend) : e.backend[i].m = e.op
 SubStep(e) ==
   LET sc == ScopeOf(e.scope) IN
@@ -144,8 +167,9 @@ SubStep(e) ==
   /\ e.cons = <<>>
   /\ e.op = "ListRepos" => StartPosOK(e)
   /\ IF e.op = "ListRepos" \/ (\A n \in OpNames(e) : ValidName(n))
-       THEN e.backend = bcalls' /\ Len(e.bscopes) = Len(bscopes')
+       THEN BackendCallsOK(e, bcalls')
        ELSE InvalidCallOK(e)
+  /\ AgainOK(e)
   /\ ConfinedCalls(e.backend)
   /\ \A i \in 1..Len(e.bscopes) : ScopesRewrittenOne(sc, ScopeOf(e.bscopes[i]))
   /\ Len(e.bscopes) = NIface(e.backend)
